@@ -76,8 +76,11 @@ func genC09Repo(g kit.G, idx int) (kit.Repo, []string) {
 	var labels []string
 	r := kit.Repo{Name: fmt.Sprintf("example.com/r%d", idx), ID: uint32(idx + 1)}
 	nb := kit.Pick(g, []int{1, 1, 2, 3, 4, 64}, "nbranches")
+	// repositories of one compound shard share branch names at different
+	// positions (the branch mask of a name differs per repository)
+	rot := g.U(3, "brot")
 	for i := 0; i < nb; i++ {
-		name := fmt.Sprintf("b%d", i)
+		name := fmt.Sprintf("b%d", (i+rot)%max(nb, 3))
 		if i == 0 {
 			name = "HEAD"
 		}
@@ -133,6 +136,12 @@ func genC09Repo(g kit.G, idx int) (kit.Repo, []string) {
 			if len(d.Symbols) >= 13 {
 				labels = append(labels, "symbols>=13")
 			}
+			// symbols need not be handed to the builder in offset order
+			if len(d.Symbols) >= 2 && g.Bool(50, "shufflesyms") {
+				perm := rapid.Permutation(d.Symbols).Draw(g.T, "symperm")
+				d.Symbols = perm
+				labels = append(labels, "symbols:unsorted")
+			}
 		}
 		r.Docs = append(r.Docs, d)
 	}
@@ -178,7 +187,7 @@ func expectedSigs(r *kit.Repo, skip func(*kit.Doc) int) map[string]docSig {
 }
 
 type symSig struct {
-	Start, End                   int
+	Start, End                    int
 	Sym, Kind, Parent, ParentKind string
 }
 
@@ -328,6 +337,7 @@ func runC09(rec *kit.Recorder, c c09Case, labels []string) error {
 			for _, s := range d.Symbols {
 				ws = append(ws, symSig{s.Start, s.End, string(d.Content[s.Start:s.End]), s.Kind, s.Parent, s.ParentKind})
 			}
+			sort.Slice(ws, func(a, b int) bool { return ws[a].Start < ws[b].Start })
 			gs := gotSyms[r.Name+"\x00"+d.Name]
 			sort.Slice(gs, func(a, b int) bool { return gs[a].Start < gs[b].Start })
 			if len(ws) != len(gs) || (len(ws) > 0 && !reflect.DeepEqual(ws, gs)) {
